@@ -929,6 +929,10 @@ func cmpBatchPoints(b *kit.B, exp expectation, f fspec, as string) string {
 				return fmt.Sprintf("output field %q missing", as)
 			}
 			gotSet[zkey(v)] = true
+			// distinct is no selector: its values carry the time of the batch, with or without usePointTimes
+			if !p.Time.Equal(b.TMax) {
+				return fmt.Sprintf("distinct value stamped %s, the batch time is %s", p.Time.UTC().Format("15:04:05.000"), b.TMax.UTC().Format("15:04:05.000"))
+			}
 		}
 		for _, ep := range exp.points {
 			if !gotSet[zkey(ep.v)] {
